@@ -293,6 +293,8 @@ def chk_unary(ctx, p):
         P.remove_element(i)
     P.remove()
     P.remove_element()
+    for i in range(1, n + 1):
+        P.remove(-i)  # positions counted from the right end, as tuple indexing allows
     for k in range(-2 * n - 1, 2 * n + 2):
         a, b, c, d = P.shift_right(k), P.shift_left(k), P.shift_up(k), P.shift_down(k)
         ctx.ev()
